@@ -9,9 +9,18 @@ THEOREMS = [
      "text": "swept over every status and contextualised name of the generated table"},
     {"name": "C03_resume_completed_rows", "strength": "F", "text": "resume of a finished paused workflow completes it"},
     {"name": "C03_offers_are_the_ready_staged", "strength": "F", "text": "what is on offer is exactly what is staged ready"},
-    {"name": "(tested, not proved) running/resuming with nothing in flight always offers something; paused only after a "
-             "pause request or a paused/pending task", "strength": "T",
-     "text": "monitor c03: side-effect-free poll of a restored copy at every quiescent point of every history"},
+    {"name": "C03b_quiescent_rests / C03b_transitional_has_work (props/C03b.v)", "strength": "F",
+     "text": "for the formal provider protocol (ProviderSys.v), every evaluator, every workflow without with-items tasks over a "
+             "well-formed composed graph with a start task, every fault-free protocol history: nothing in flight and an empty "
+             "poll => the status is succeeded, failed, canceled or paused (or unset before boot); equivalently running / "
+             "resuming / pausing / canceling => something in flight or on offer (or the poll fails the workflow)"},
+    {"name": "C03b_paused_only_after_pause_request", "strength": "F",
+     "text": "pausing/paused only after a pause request (no with-items, no intermediate action statuses in this protocol)"},
+    {"name": "C03b_refuted_without_start_task / C03b_refuted_after_a_fault", "strength": "R",
+     "text": "the hypotheses cannot be dropped: a graph without a root rests in running (replayed on the engine; inspection "
+             "rejects such a definition); after a non-expression exception escaped a call the state may be stuck"},
+    {"name": "(tested) monitor c03: with-items, retry, loops, reruns, intermediate statuses", "strength": "T",
+     "text": "side-effect-free poll of a restored copy at every quiescent point of every history"},
 ]
 TRUSTED_BASE = common.TRUSTED_BASE_COMMON
 ASSUMPTIONS = ["reference provider protocol; known findings D1 (late join arrival) and D9 (empty rerun)"]
